@@ -31,6 +31,24 @@ SMinTab == [T \in {t \in DOMAIN Obs.types : Obs.types[t].kind = "ref"} |->
               MinScaleI(Obs.types[T].units, 1, Obs.types[T].units[1].scale)]
 SMin(T) == SMinTab[T]
 
+(* The physical value of a quantity is its amount times the PUBLISHED scale of its unit.  C07 makes the reported *)
+(* scale equal to the published one, so on a tree where C07 holds both readings coincide and the clauses over   *)
+(* reported scales say everything.  Where a catalogue unit's reported scale DEVIATES from its published one     *)
+(* (terminating decimals only: those are numbers of the exact arithmetic used here), the *_published clauses    *)
+(* judge conversions, comparisons, sums, ratios, derived results and rates by the published scales.             *)
+HasPub(T, u) == /\ T \in DOMAIN Decl.types /\ Decl.types[T].crate # "gen" /\ DKnownU(T, u)
+                /\ DUnit(T, u).term /\ DUnit(T, u).pscale.k = "fin"
+PScale(T, u) == IF HasPub(T, u) THEN DUnit(T, u).pscale ELSE OScale(T, u)
+DevTab == [T \in DOMAIN Obs.types |->
+             [i \in DOMAIN Obs.types[T].units |->
+                LET u == Obs.types[T].units[i].id
+                    s == Obs.types[T].units[i].scale
+                IN  /\ HasPub(T, u)
+                    /\ LET p == DUnit(T, u).pscale
+                       IN  IF BE = "dec" THEN ~XEq(s, p)
+                           ELSE ~XLe(XAbsDiff(s, p), XScale2(XAbs(p), -52))]]
+Dev(T, u) == OKnownU(T, u) /\ DevTab[T][OIdxOf(T, u)]
+
 SameQty(p, q) == p.u = q.u /\ SameAmount(p.a, q.a)
 \* two outcomes are identical
 SameOutcome(o1, o2) == IF Ok(o1) THEN Ok(o2) /\ SameQty(o1.ok, o2.ok) ELSE ~Ok(o2)
@@ -55,7 +73,9 @@ ConvertClauses(e) ==
           Cl("C01.same", kn /\ ok /\ e.v.u = e.to, SameAmount(r, a)),
           Cl("C01.equiv", kn /\ ok /\ Ok(e.eqv), SameAmount(e.eqv.ok, r)),
           Cl("C01.mag", kn /\ ok /\ inr /\ e.v.u # e.to,
-                        IsFin(r) /\ ConvWithin(BE, REGIME, a, s1, s2, r)) >>
+                        IsFin(r) /\ ConvWithin(BE, REGIME, a, s1, s2, r)),
+          Cl("C01.mag_published", kn /\ ok /\ inr /\ e.v.u # e.to /\ (Dev(T, e.v.u) \/ Dev(T, e.to)),
+                        IsFin(r) /\ ConvWithin(BE, REGIME, a, PScale(T, e.v.u), PScale(T, e.to), r)) >>
 
 ---------------------------------------------------------------------------
 (* C02 / C10  comparison                                                   *)
@@ -120,6 +140,10 @@ CmpClauses(e) ==
           Cl("C02.same", isref /\ ok /\ same, SameCmp(ab, e.ref) /\ SameCmp(ba, e.refba)),
           Cl("C02.order", isref /\ ok /\ ~same /\ inr /\ CmpSeparated(a, sa, b, sb),
                  LET o == XCmp(XMul(a, sa), XMul(b, sb)) IN SameCmp(ab, CmpOf(o)) /\ SameCmp(ba, CmpOf(-o))),
+          Cl("C02.order_published", isref /\ ok /\ ~same /\ inr /\ (Dev(T, e.x.u) \/ Dev(T, e.y.u))
+                                    /\ CmpSeparated(a, PScale(T, e.x.u), b, PScale(T, e.y.u)),
+                 LET o == XCmp(XMul(a, PScale(T, e.x.u)), XMul(b, PScale(T, e.y.u)))
+                 IN SameCmp(ab, CmpOf(o)) /\ SameCmp(ba, CmpOf(-o))),
           Cl("C02.sym", isref /\ ok /\ nonan, CmpSymmetric(ab, ba)),
           Cl("C02.consistent", isref /\ ok, CmpConsistent(ab) /\ CmpConsistent(ba)),
           \* quantities without reference unit
@@ -190,6 +214,10 @@ ArithClauses(e) ==
           Cl("C03.same", isref /\ ok /\ same /\ Ok(e.ref), SameAmount(r, e.ref.ok)),
           Cl("C03.mag", isref /\ ok /\ inr /\ op # "div", IsFin(r) /\ AddWithin(op, a, sa, b, sb, r)),
           Cl("C03.ratio", isref /\ ok /\ inr /\ op = "div", IsFin(r) /\ RatioWithin(a, sa, b, sb, r)),
+          Cl("C03.mag_published", isref /\ ok /\ inr /\ op # "div" /\ ~same /\ (Dev(T, e.x.u) \/ Dev(T, e.y.u)),
+                 IsFin(r) /\ AddWithin(op, a, PScale(T, e.x.u), b, PScale(T, e.y.u), r)),
+          Cl("C03.ratio_published", isref /\ ok /\ inr /\ op = "div" /\ ~same /\ (Dev(T, e.x.u) \/ Dev(T, e.y.u)),
+                 IsFin(r) /\ RatioWithin(a, PScale(T, e.x.u), b, PScale(T, e.y.u), r)),
           \* quantities without reference unit (several units, or a single one)
           Cl("C10.panic", kn /\ ~isref /\ ~same, ~ok),
           Cl("C10.same", kn /\ ~isref /\ same,
@@ -307,6 +335,10 @@ DerivedClauses(e) ==
           Cl("C05.borrowed_forms", kn, SameOutcome(e.out, e.bl) /\ SameOutcome(e.out, e.br) /\ SameOutcome(e.out, e.bb)),
           Cl("C04.mag", knr /\ inr,
                  IsFin(amt) /\ XLe(XMul(XAbsDiff(XMul(XMul(amt, S), d), n), tS.lm), tS.tol)),
+          Cl("C04.mag_published", knr /\ inr /\ (Dev(L, e.x.u) \/ Dev(R, e.y.u) \/ Dev(Res, ru)),
+                 LET pa == PScale(L, e.x.u)  pb == PScale(R, e.y.u)  pS == PScale(Res, ru)
+                     tP == DerivedTol(op, a, pa, b, pb, pS, TRUE)
+                 IN  IsFin(amt) /\ XLe(XMul(XAbsDiff(XMul(XMul(amt, pS), DerivedD(op, a, pa, b, pb)), DerivedN(op, a, pa, b, pb)), tP.lm), tP.tol)),
           Cl("C04.inverse", knr /\ inr /\ Has(e, "back") /\ Ok(e.back) /\ ~XIsZero(b) /\ (BE = "f64" \/ REGIME = "exact")
                             /\ KU(L, e.back.ok.u),
                  \* (x op y) op^-1 y gives x back: same magnitude within three operations' rounding
@@ -402,7 +434,8 @@ TypeClauses(e) ==
           Cl("C09.iter_units", kn, e.iter_units = e.iter),
           Cl("C09.consts", dk,
                  /\ Len(e.consts) = Len(DUnits(T))
-                 /\ \A i \in DOMAIN DUnits(T) : e.consts[i].c = DUnits(T)[i].const /\ e.consts[i].id = DUnits(T)[i].id),
+                 /\ \A i \in DOMAIN DUnits(T) : \E j \in DOMAIN e.consts :
+                        e.consts[j].c = DUnits(T)[i].const /\ e.consts[j].id = DUnits(T)[i].id),
           Cl("C09.ref_unit", dk /\ isref /\ DKind(T) = "ref",
                  e.ref_unit_q = DRefUnit(T) /\ e.ref_unit_u = DRefUnit(T)),
           Cl("C09.one_ref", kn /\ isref /\ OKnownT(T),
